@@ -177,7 +177,8 @@ class Tracker:
         if self._mentions(value, T):
             if cn in REORDER_CALLS:
                 return [('REORDER', cn, None, {})]
-            if cn in MAP_CALLS or self._is_elementwise(value, T):
+            if cn in MAP_CALLS or cn in getattr(self, 'map_calls', ()) or \
+                    self._is_elementwise(value, T):
                 return [('MAP', None, None, {})]
             return [('XFORM', cn or type(value).__name__, None, {})]
         return [('SET', None, value, {})]
